@@ -1,0 +1,63 @@
+//go:build verif
+// +build verif
+
+package js_parser
+
+import (
+	"github.com/evanw/esbuild/internal/config"
+	"github.com/evanw/esbuild/internal/js_ast"
+	"github.com/evanw/esbuild/internal/js_lexer"
+	"github.com/evanw/esbuild/internal/logger"
+)
+
+// Thin wrapper (no logic) used by the verification harness in /verif (C06):
+// runs one of the unexported TypeScript type-skipping routines on a fresh
+// parser positioned at the first token of "text" and reports whether it
+// returned without a lexer panic, the byte offset of the current token
+// afterwards, the routine's own result code and the number of logged errors.
+//
+//	which: 0 skipTypeScriptTypeWithFlags(level, flags)
+//	       1 skipTypeScriptObjectType
+//	       2 skipTypeScriptTypeParameters(flags)
+//	       3 skipTypeScriptTypeArguments (isParseTypeArgumentsInExpression = flags != 0)
+//	       4 skipTypeScriptFnArgs
+//	       5 skipTypeScriptBinding
+//	       6 trySkipTypeArgumentsInExpressionWithBacktracking
+func VerifSkipTypeScript(text string, which int, level js_ast.L, flags uint8) (ok bool, end int, code int, errors int) {
+	log := logger.NewDeferLog(logger.DeferLogNoVerboseOrDebug, nil)
+	source := logger.Source{Contents: text}
+	options := OptionsFromConfig(&config.Options{TS: config.TSOptions{Parse: true}})
+	defer func() {
+		r := recover()
+		if _, isLexerPanic := r.(js_lexer.LexerPanic); isLexerPanic {
+			ok = false
+		} else if r != nil {
+			panic(r)
+		}
+		errors = len(log.Done())
+	}()
+	p := newParser(log, source, js_lexer.NewLexer(log, source, options.ts), &options)
+	switch which {
+	case 0:
+		p.skipTypeScriptTypeWithFlags(level, skipTypeFlags(flags))
+	case 1:
+		p.skipTypeScriptObjectType()
+	case 2:
+		code = int(p.skipTypeScriptTypeParameters(typeParameterFlags(flags)))
+	case 3:
+		if p.skipTypeScriptTypeArguments(skipTypeScriptTypeArgumentsOpts{isParseTypeArgumentsInExpression: flags != 0}) {
+			code = 1
+		}
+	case 4:
+		p.skipTypeScriptFnArgs()
+	case 5:
+		p.skipTypeScriptBinding()
+	case 6:
+		if p.trySkipTypeArgumentsInExpressionWithBacktracking() {
+			code = 1
+		}
+	}
+	end = int(p.lexer.Loc().Start)
+	ok = true
+	return
+}
